@@ -1,11 +1,15 @@
 /-
   C18 — CLI exit codes and the argument-to-context contract.
 
-  Property theorems only (helper lemmas: Props/Lemmas/C18_Parsers.lean, C18_Argv.lean).
+  Property theorems only (helper lemmas: Props/Lemmas/C18_Parsers.lean, C18_Argv.lean, C18_Main.lean).
+  `Generated/CliMain.lean` is rewritten from the source under test on every run
+  (harness/extract_c18.py).
 -/
 import PypyrModel.Cli
+import Generated.CliMain
 import Props.Lemmas.C18_Parsers
 import Props.Lemmas.C18_Argv
+import Props.Lemmas.C18_Main
 
 namespace Pypyr.C18
 open Pypyr.Cli
@@ -29,6 +33,181 @@ example : exitStatus .stopPipeline = 0 ∧ exitStatus (.error "ValueError" "boom
     (cliMain (pipelineRun (.error "ValueError" "boom"))).stderr = "\n\x1b[91mValueError: boom\x1b[0;0m\n" := by
   decide +kernel
 
+/-! ## Exit status: a fault in any phase of `main` -/
+
+/-- Tie to the source (extracted from `pypyr/cli.py` and `pypyr/__main__.py` on every run):
+    after `get_args`, `main` makes exactly the calls of `mainShape`, each where `mainShape` puts it -
+    none before the `try`, all three in its body, none in an `else`/`finally` or after it; the
+    handler ladder is `KeyboardInterrupt → 128 + SIGINT`, `Exception → 255`, in this order; the
+    `Exception` handler starts by writing the pieces `mainStderrWrites` to stderr, the interrupt
+    handler a newline to stdout; `main` has no other `return`; the entry point is
+    `sys.exit(pypyr.cli.main())`. Moving a call out of the `try`, narrowing or reordering a handler,
+    or changing what is written breaks this obligation. -/
+theorem main_shape_agrees :
+    Generated.CliMain.callsOfMain =
+      ("before-try", "get_args") ::
+        (mainShape.beforeTry.map (fun p => ("before-try", p.callName)) ++
+         mainShape.inTry.map (fun p => ("try", p.callName))) ∧
+    Generated.CliMain.handlers = mainHandlers ∧
+    Generated.CliMain.errorName = some "e" ∧
+    Generated.CliMain.errorWrites = mainStderrWrites ∧
+    Generated.CliMain.interruptWrites = [[(false, "\n")]] ∧
+    Generated.CliMain.plainReturns = [] ∧
+    Generated.CliMain.entryPoint = ["main: return pypyr.cli.main()", "sys.exit(main())"] := by
+  decide +kernel
+
+/-- The model's ladder `cliMain` is the extracted ladder: for whatever is raised in the `try` body,
+    the first extracted handler that catches it returns what `cliMain` returns, and what the
+    `Exception` handler writes first is the extracted pieces evaluated at `type(e).__name__ = ty`,
+    `str(e) = msg`. -/
+theorem ladder_is_extracted (x : Raised) (hx : x ≠ .nothing) :
+    ladderRet Generated.CliMain.handlers x = some (cliMain x).ret ∧
+    (∀ ty msg, x = .error ty msg →
+        renderWrites ty msg Generated.CliMain.errorWrites = some (cliMain x).stderr) := by
+  have hh : Generated.CliMain.handlers = mainHandlers := main_shape_agrees.2.1
+  have hw : Generated.CliMain.errorWrites = mainStderrWrites := main_shape_agrees.2.2.2.1
+  rw [hh, hw]
+  refine ⟨ladderRet_mainHandlers x hx, ?_⟩
+  intro ty msg h
+  subst h
+  exact renderWrites_main ty msg
+
+example : ladderRet mainHandlers .keyboardInterrupt = some (some 130) ∧
+    ladderRet mainHandlers (.error "ConfigError" "x") = some (some 255) ∧
+    ladderRet mainHandlers .nothing = none ∧
+    renderWrites "ConfigError" "boom" mainStderrWrites = some "\n\x1b[91mConfigError: boom\x1b[0;0m\n" := by
+  decide +kernel
+
+/-- Nothing escapes `main`: whatever each of `config.init()`, `set_root_logger(…)` and
+    `pipelinerunner.run(…)` raises, `main` returns, and what goes down the handler ladder is what
+    the first raising call raised. -/
+theorem main_never_escapes (f : Faults) :
+    mainPhases f = .returned (cliMain (seqRaises f [.configInit, .setRootLogger, .runPipeline])) := rfl
+
+/-- **Exit-code clause, for a fault in any phase.** Let `p` be the first call of `main` that raises
+    (all calls before it in source order return) and `x` what it raises. Then, whichever phase `p`
+    is - configuration look-up, logging set-up, or loading/running the pipeline:
+    * `KeyboardInterrupt` → status 130, a newline on stdout, nothing on stderr;
+    * an `Exception` of type name `ty` with `str(e) = msg` → status 255 and stderr is
+      `"\n" ++ "\x1b[91m" ++ ty ++ ": " ++ msg ++ "\x1b[0;0m" ++ "\n"`;
+    * a Stop-family signal can only be what `config.init`/`set_root_logger` raised (`Pipeline.run`
+      absorbs it below `main`, see `exit_zero_iff`); it is an `Exception` like any other: 255. -/
+theorem exit_code_spec_any_phase (f : Faults) (p : Phase) (x : Raised)
+    (hbefore : ∀ q : Phase, q.idx < p.idx → callRaises f q = .nothing)
+    (hx : callRaises f p = x) (hne : x ≠ .nothing) :
+    mainPhases f = .returned (cliMain x) ∧
+    (x = .keyboardInterrupt →
+      (mainPhases f).status = some 130 ∧ (cliMain x).stdout = "\n" ∧ (cliMain x).stderr = "") ∧
+    (∀ ty msg, x = .error ty msg →
+      (mainPhases f).status = some 255 ∧
+      (cliMain x).stderr = "\n" ++ "\x1b[91m" ++ ty ++ ": " ++ msg ++ "\x1b[0;0m" ++ "\n") ∧
+    ((x = .stop ∨ x = .stopPipeline ∨ x = .stopStepGroup) →
+      p ≠ .runPipeline ∧ (mainPhases f).status = some 255) := by
+  obtain ⟨pre, post, hsplit, hpre⟩ := inTry_split p
+  have hseq : seqRaises f mainShape.inTry = x := by
+    rw [hsplit, seqRaises_first f pre post p (fun q hq => hbefore q ((hpre q).1 hq)) (hx ▸ hne), hx]
+  have hmain : mainPhases f = .returned (cliMain x) := by
+    simp only [mainPhases, mainOf, mainShape, seqRaises] at hseq ⊢
+    rw [hseq]
+  have hs := cliMain_status x
+  refine ⟨hmain, ?_, ?_, ?_⟩
+  · intro h
+    rw [hmain]
+    exact ⟨by simp [Outcome.status, (hs.2.1 h).1], (hs.2.1 h).2⟩
+  · intro ty msg h
+    rw [hmain]
+    exact ⟨by simp [Outcome.status, (hs.2.2.1 ty msg h).1], (hs.2.2.1 ty msg h).2⟩
+  · intro h
+    have hnr := run_call_never_stop f
+    refine ⟨?_, ?_⟩
+    · intro hp
+      subst hp
+      rcases h with h | h | h <;> subst h
+      · exact hnr.1 hx
+      · exact hnr.2.1 hx
+      · exact hnr.2.2 hx
+    · rw [hmain]
+      rcases h with h | h | h
+      · simp [Outcome.status, (hs.2.2.2.1 h).1]
+      · simp [Outcome.status, (hs.2.2.2.2.1 h).1]
+      · simp [Outcome.status, (hs.2.2.2.2.2 h).1]
+
+/-- A missing `$PYPYR_CONFIG_GLOBAL` file (raised by `config.init()`), an unwritable `--logpath`
+    (raised by `set_root_logger`) and a missing pipeline all end the same way; an interrupt during
+    config look-up is 130; a later phase's fault is not reached when an earlier phase raised. -/
+example :
+    mainPhases (faultAt .configInit (.error "ConfigError" "gone")) =
+      .returned ⟨some 255, "", "\n\x1b[91mConfigError: gone\x1b[0;0m\n"⟩ ∧
+    (mainPhases (faultAt .setRootLogger (.error "FileNotFoundError" "x"))).status = some 255 ∧
+    (mainPhases (faultAt .runPipeline (.error "PipelineNotFoundError" "p"))).status = some 255 ∧
+    (mainPhases (faultAt .configInit .keyboardInterrupt)).status = some 130 ∧
+    (mainPhases (faultAt .runPipeline .stopPipeline)).status = some 0 ∧
+    (mainPhases (faultAt .configInit .stop)).status = some 255 ∧
+    (mainPhases (fun | .configInit => .keyboardInterrupt | _ => .error "E" "later")).status = some 130 := by
+  decide +kernel
+
+/-- Status 0 **exactly** when every phase returned, the runner counting as returned when the run
+    completed or a Stop-family instruction ended it. -/
+theorem exit_zero_iff (f : Faults) :
+    (mainPhases f).status = some 0 ↔
+      f .configInit = .nothing ∧ f .setRootLogger = .nothing ∧
+      (f .runPipeline = .nothing ∨ f .runPipeline = .stop ∨ f .runPipeline = .stopPipeline ∨
+       f .runPipeline = .stopStepGroup) := by
+  rw [← run_call_returns_iff]
+  have hiff : (mainPhases f).status = some 0 ↔ seqRaises f mainShape.inTry = .nothing := by
+    show some (sysExit (cliMain (seqRaises f mainShape.inTry)).ret) = some 0 ↔ _
+    rcases cliMain_status_cases (seqRaises f mainShape.inTry) with ⟨h1, h2⟩ | ⟨h1, h2⟩ | ⟨h1, h2, _⟩
+    · rw [h1]; simp [h2]
+    · rw [h1]; simp [h2]
+    · rw [h1]; simp [h2]
+  rw [hiff, seqRaises_nothing_iff]
+  simp [mainShape, callRaises]
+
+/-- 130 exactly when the first raising call raised `KeyboardInterrupt`, 255 exactly when it raised
+    anything else; there is no fourth status and no uncaught exception. -/
+theorem exit_status_trichotomy (f : Faults) :
+    ((mainPhases f).status = some 0 ∧ seqRaises f mainShape.inTry = .nothing) ∨
+    ((mainPhases f).status = some 130 ∧ seqRaises f mainShape.inTry = .keyboardInterrupt) ∨
+    ((mainPhases f).status = some 255 ∧ seqRaises f mainShape.inTry ≠ .nothing ∧
+      seqRaises f mainShape.inTry ≠ .keyboardInterrupt) := by
+  show (some (sysExit (cliMain (seqRaises f mainShape.inTry)).ret) = some 0 ∧ _) ∨
+    (some (sysExit (cliMain (seqRaises f mainShape.inTry)).ret) = some 130 ∧ _) ∨
+    (some (sysExit (cliMain (seqRaises f mainShape.inTry)).ret) = some 255 ∧ _)
+  rcases cliMain_status_cases (seqRaises f mainShape.inTry) with h | h | h
+  · exact .inl ⟨by rw [h.1], h.2⟩
+  · exact .inr (.inl ⟨by rw [h.1], h.2⟩)
+  · exact .inr (.inr ⟨by rw [h.1], h.2⟩)
+
+/-- The placement matters, for every conceivable placement of the calls: `main` is free of uncaught
+    exceptions for **all** behaviours of its calls exactly when no call sits before the `try`.
+    (So a variant of `main` with any of the three calls hoisted out of the `try` violates the
+    exit-code clause on some fault of that call.) -/
+theorem no_escape_iff_all_calls_in_try (s : MainShape) :
+    (∀ f : Faults, ∃ m, mainOf s f = .returned m) ↔ s.beforeTry = [] := by
+  constructor
+  · intro h
+    cases hb : s.beforeTry with
+    | nil => rfl
+    | cons p ps =>
+      exfalso
+      obtain ⟨m, hm⟩ := h (fun _ => .error "E" "m")
+      have hp : callRaises (fun _ => Raised.error "E" "m") p = .error "E" "m" := by
+        cases p <;> simp [callRaises, pipelineRun]
+      have : seqRaises (fun _ => Raised.error "E" "m") (p :: ps) = .error "E" "m" := by
+        rw [seqRaises_cons_raises _ _ _ (by rw [hp]; simp), hp]
+      simp [mainOf, hb, this] at hm
+  · intro h f
+    exact ⟨cliMain (seqRaises f s.inTry), by simp [mainOf, h, seqRaises]⟩
+
+/-- The seeded shape: `config.init()` above the `try`. A config fault then leaves `main` uncaught. -/
+example : mainOf ⟨[.configInit], [.setRootLogger, .runPipeline]⟩ (faultAt .configInit (.error "ConfigError" "gone")) =
+    .escaped (.error "ConfigError" "gone") := by decide +kernel
+
+/-- The one-phase statement `exit_code_spec` is the run-phase instance. -/
+theorem exit_status_run_phase (r : Raised) :
+    (mainPhases (faultAt .runPipeline r)).status = some (exitStatus r) := by
+  cases r <;> rfl
+
 /-- A usage error of the argument parser is status 2; otherwise the status is that of the run
     invoked with the parsed arguments passed through field by field. -/
 theorem cli_process_spec (argv : List String) (runs : RunCall → Raised) (a : Args)
@@ -37,6 +216,28 @@ theorem cli_process_spec (argv : List String) (runs : RunCall → Raised) (a : A
       { pipelineName := a.name, argsIn := a.ctx, parseArgs := some true, groups := a.groups,
         successGroup := a.success, failureGroup := a.failure, pyDir := a.dir })) := by
   simp [cliProcess, h, runCallOf]
+
+/-- The same with a fault possible in every phase: for a parsed command line the outcome is that of
+    `main` with the logger set up from `--log`/`--logpath` as given and the runner called with the
+    parsed arguments field by field; `main` returns in every case (no uncaught exception) and the
+    status is 0, 130 or 255. -/
+theorem cli_process_phases_spec (argv : List String) (cfg : Raised)
+    (log : Option Nat → Option String → Raised) (runs : RunCall → Raised) (a : Args)
+    (h : parseArgv argv = .ok a) :
+    ∃ m, cliProcessPhases argv cfg log runs = some (.returned m) ∧
+      m = cliMain (seqRaises (fun
+        | .configInit => cfg
+        | .setRootLogger => log a.log a.logpath
+        | .runPipeline => runs
+            { pipelineName := a.name, argsIn := a.ctx, parseArgs := some true, groups := a.groups,
+              successGroup := a.success, failureGroup := a.failure, pyDir := a.dir })
+        [.configInit, .setRootLogger, .runPipeline]) ∧
+      (sysExit m.ret = 0 ∨ sysExit m.ret = 130 ∨ sysExit m.ret = 255) := by
+  refine ⟨_, by simp only [cliProcessPhases, h]; rfl, rfl, ?_⟩
+  rcases cliMain_status_cases (seqRaises _ [.configInit, .setRootLogger, .runPipeline]) with h' | h' | h'
+  · exact .inl h'.1
+  · exact .inr (.inl h'.1)
+  · exact .inr (.inr h'.1)
 
 /-! ## argv pass-through -/
 
